@@ -12,7 +12,7 @@ RULES = {
     "C09.R3": "single source: the dynamic path (qforward) and freeze obtain the quantized weight only through self.qweight; quantize_weight is called nowhere else under nn/ and with the module's own configuration",
     "C09.R4": "packing typestate: QBitsTensor.__init__ stores a packed payload on every path; create() forwards all its arguments in order",
     "C09.R6": "lifecycle ops keep the tensor: the detach and _to_copy handlers (run by Parameter(), freeze and Module.to on a frozen weight) rebuild with the source's own qtype, axis, group size, size and stride, and pass payload / scale / zero-point through the op only",
-    "C09.R7": "compact storage: the packer every frozen low-bit weight goes through stores ceil(rows x bits / 8) payload rows for every row count (rules C04.R2/R3), and the 8-bit detach/move handlers that Parameter(), freeze and Module.to run keep payload and scale through the op only (rules of C05.R5)",
+    "C09.R7": "compact storage: the packer every frozen low-bit weight goes through stores ceil(rows x bits / 8) payload rows for every row count (rules C04.R2/R3), the detach / clone / move re-wraps of the packed payload keep bits, size and stride (the re-wrap clause of C04.R5: Parameter(), copy.deepcopy and Module.to run them on a frozen low-bit weight), and the 8-bit detach/move handlers that Parameter(), freeze and Module.to run keep payload and scale through the op only (rules of C05.R5)",
     "C09.R10": "what a twin exposes is what it computes with: until freeze() the `weight` attribute of a twin is the float tensor while its forward uses the quantized one, so a parent that reads a child's weight directly (nn.MultiheadAttention with out_proj, the fast path of TransformerEncoderLayer) computes with float weights before freeze and quantized ones after",
     "C09.R9": "a calibrated model can be copied: every value stored into the input_scale / output_scale buffers is detached from the graph it was computed in (a non-leaf tensor that requires grad makes copy.deepcopy of the model raise, and keeps the graph of the calibration batch alive)",
     "C09.R8": "copies keep behaving: a qtype is a value object (a dataclass that deepcopy duplicates), so qtypes are compared with == / in, never with `is` (identity holds for the library's singletons only until a frozen model is copied)",
@@ -98,6 +98,25 @@ def run(chk):
     from ..report import AliasedCheck
     from . import c04
     c04.run(AliasedCheck(chk, {"C04.R2": "C09.R7", "C04.R3": "C09.R7"}))
+
+    class _Rewraps(AliasedCheck):
+        """Of C04.R5 only the detach / clone / move re-wraps belong here: Parameter(), freeze-again, copy.deepcopy and Module.to run them on
+        the packed payload of a frozen low-bit weight (seed C09-51). What in-place ops do to a packed tensor is C04's own clause (F52)."""
+
+        def require(self, rule, site, cond, what, function="", tag="", witness=""):
+            if rule == "C04.R5" and tag != "dispatch re-wrap":
+                return cond
+            return super().require(rule, site, cond, what, function, tag, (witness + " - run on the payload of a frozen int2/int4 weight by Parameter(), copy.deepcopy and Module.to") if witness else witness)
+
+        def bad(self, rule, site, function, tag, detail, witness):
+            if rule == "C04.R5" and tag != "dispatch re-wrap":
+                return
+            super().bad(rule, site, function, tag, detail, witness)
+
+        def floor(self, rule, n, minimum, what):
+            pass
+
+    c04.run(_Rewraps(chk, {"C04.R5": "C09.R7"}))
     if chk.pid == "C09":
         # "one scale (and zero-point) per output index or group": the optimizers reduce over every other dimension (C03.R1)
         from . import c03
